@@ -9,7 +9,10 @@ ENGINES = [
 
 NOTES = ("All checks are static: they parse /repo/src/elexmodel on every run (no import, no execution of repo code, no "
          "solver). Exit 2 + ANALYSIS-ERROR = the analysis could not decide (anchor vanished, construct not understood); "
-         "that is never reported as a pass or as a violation. Genuine defects found are in known_findings.json.")
+         "that is never reported as a pass or as a violation. Genuine defects found are in known_findings.json: all but one were "
+         "repaired by 'fix:' commits in /repo (entries 'fixed', which suppress nothing); one is open (K1, C01: the classification "
+         "table leaves out non-modelled baseline units; a repair would break two pinned tests) and is printed as KNOWN-FINDING by "
+         "the C01 check at its three call sites. DESIGN.md section 5 has the witnesses.")
 
 CLAIMS = {}
 NOT_APPLICABLE = {}
